@@ -222,8 +222,8 @@ def ser_op(op):
         return "rebalance %s %s %d %s %s" % (ser_path(op["path"]), tF(op["weight"]), op["child"], tO(op.get("base")), tB(op["update"]))
     if k == "read":
         return "read %s %d" % (ser_path(op["path"]), op["g"])
-    if k == "btday":
-        return "btday %d %s%s" % (op["d"], tB(op["ran"]), (" " + ser_world(op["w2"])) if op["ran"] else "")
+    if k in ("btday", "paperday"):
+        return "%s %d %s%s" % (k, op["d"], tB(op["ran"]), (" " + ser_world(op["w2"])) if op["ran"] else "")
     raise ValueError(k)
 
 
